@@ -142,14 +142,15 @@ def check_item(item):
             rep.violation(f'schedule/exception={type(e).__name__}', f'{name}: SimOps raised {type(e).__name__}: {e}', data); return rep
         tb = tables.Tables(so, c, strip)
         rep.counts['tables'] += 1; rep.counts['ops'] += tb.n; rep.counts['levels'] += len(so.level_starts)
-        for qn, qf in (('same-level-conflict', tb.q_same_level_conflict), ('operand-not-ready', tb.q_operand_not_ready)):
-            r, wit, dt = qf()
+        for qn, which in (('same-level-conflict', 'q1'), ('operand-not-ready', 'q2')):
+            r, wit, dt = tb.chunked(which)
             rep.solver_s += dt; rep.counts['queries_' + str(r)] += 1; rep.counts['obligations'] += 1
             if r == z3.unsat: rep.counts['discharged'] += 1
             elif r == z3.sat:
                 ok, what = replay(dict(data, q=qn, caps=caps, cmin=cmin))
                 if ok: rep.violation(f'schedule/{qn}', f'{name} c_reuse={reuse} strip_forks={strip}: {what}', dict(data, q=qn, caps=caps, cmin=cmin))
                 else: rep.error(f'{name}: {qn} witness {wit} not confirmed on the real tables')
+            elif tb.n > 3000: rep.note(f'{name} c_reuse={reuse} strip_forks={strip}: {qn} not covered (solver {r} on a {tb.n}-op table)')
             else: rep.error(f'{name}: solver {r}')
     if len(c.lines) <= 80:
         try:
